@@ -3,5 +3,6 @@ CONSTANTS
   LegacyImsaak = FALSE
   LegacyImsaakFlag = FALSE
   LegacyLateInt = FALSE
+  LegacyIntFlag = FALSE
 POSTCONDITION TraceAccepted
 CHECK_DEADLOCK FALSE
